@@ -296,11 +296,19 @@ pub struct Operand {
 }
 
 pub fn operand(op: &Op, cur_out_dim: usize, rng: &mut Rng) -> Operand {
-    let t = match op {
+    let mut t = match op {
         Op::ComposeSchema(s, _) => Some(s.build(cur_out_dim)),
         Op::ComposeTree(sp, _) | Op::ArithTree(sp, _, _) => Some(gen::build::<2>(sp, rng, false)),
         _ => None,
     };
+    // the operand may itself carry cached feasibility states from an earlier elimination
+    if let Some(tt) = t.as_mut() {
+        if rng.chance(0.3) {
+            let _ = std::panic::catch_unwind(std::panic::AssertUnwindSafe(|| {
+                tt.infeasible_elimination();
+            }));
+        }
+    }
     let s = t.as_ref().map(snap);
     Operand { tree: t, snap: s }
 }
